@@ -3,7 +3,9 @@ of sent boards), R11.1 (terminal node), R12.1/R12.2 (negamax discipline), R18.x 
 from wa.mir import AnchorMissing, ShapeNotRecognised, callee_of, operand_alias
 from wa.expr import Exprs, show_expr, subexprs, strip_refs, data_slice, root_local
 from wa.flow import forward_states
-from wa.cond import dominating_facts, bool_facts
+from wa.cond import dominating_facts, specialise
+from wa.implied import implying_edges, known_atoms
+from wa import loopform
 from wa.linear import linear
 
 ABS = "engine::alpha_beta_search"
@@ -31,22 +33,132 @@ def one_param(b, ty):
     return ps[0]
 
 
-def ot_guards(b, ex):
-    """Switches on out_of_time(start, t) with the function's own clock parameters.
-    Yields (switch_bb, false_target, true_target, call_bb)."""
+def param_continuations(b):
+    """{local: parameter}: a named local that is initialised with the value of a parameter which is
+    itself never reassigned *is* that parameter from then on (`fn f(alpha) { g(alpha) }` +
+    `fn g(mut alpha)` after inlining, or `let mut a = alpha;`).  Rules that speak about "this node's
+    alpha / beta / depth" look a local up here before comparing it with the parameter."""
+    from wa.mir import alias_of
+    rd = b.reaching()
+    out = {}
+    for l in range(b.arg_count + 1, len(b.locals)):
+        if l not in b.names:
+            continue
+        whole = [loc for loc, kind in rd.all_sites(l) if kind == "whole"]
+        for loc in whole:
+            bb, i = loc
+            st = b.stmts(bb)
+            if i >= len(st):
+                continue
+            rv = st[i]["rv"]
+            if not (rv["k"] == "use" and rv["op"]["k"] in ("copy", "move") and not rv["op"]["place"]["proj"]):
+                continue
+            p, mode, _ = alias_of(b, rv["op"]["place"]["local"])
+            if mode != "val":
+                continue
+            p = out.get(p, p)
+            if not (1 <= p <= b.arg_count) or b.local_ty(p) != b.local_ty(l):
+                continue
+            if any(kind == "whole" for _, kind in rd.all_sites(p)):
+                continue        # the parameter is reassigned: the local is a snapshot, not the parameter
+            if all(b.node_dominates(bb, o[0]) for o in whole):
+                out[l] = p
+            break
+    return out
+
+
+def _canon(b, l):
+    if not hasattr(b, "_param_cont"):
+        b._param_cont = param_continuations(b)
+    return b._param_cont.get(l, l)
+
+
+def return_carriers(b):
+    """Locals whose value is the function result: the return place and every local that is only ever
+    moved into such a local (`let score = ..; score`, the result local of an inlined helper)."""
+    R = {0}
+    changed = True
+    while changed:
+        changed = False
+        for loc, st in b.iter_stmts():
+            if st["k"] != "assign" or st["place"]["proj"] or st["place"]["local"] not in R:
+                continue
+            rv = st["rv"]
+            if rv["k"] == "use" and rv["op"]["k"] in ("copy", "move") and not rv["op"]["place"]["proj"]:
+                y = rv["op"]["place"]["local"]
+                if y in R or y <= b.arg_count or b.local_ty(y) != b.local_ty(0):
+                    continue
+                # y is a carrier if every use of y is such a move into a carrier
+                ok = True
+                for u in _uses_of_local(b, y):
+                    ubb, ui = u
+                    sts = b.stmts(ubb)
+                    if ui >= len(sts):
+                        ok = False
+                        break
+                    s2 = sts[ui]
+                    r2 = s2["rv"]
+                    if not (s2["k"] == "assign" and not s2["place"]["proj"] and r2["k"] == "use" and r2["op"]["k"] in ("copy", "move") and
+                            not r2["op"]["place"]["proj"] and r2["op"]["place"]["local"] == y and
+                            (s2["place"]["local"] in R or s2["place"]["local"] == st["place"]["local"])):
+                        ok = False
+                        break
+                # and it is not a user variable that is also read elsewhere (checked above); accumulators such
+                # as `best_score` have other uses (comparisons) and stay ordinary locals
+                if ok:
+                    R.add(y)
+                    changed = True
+    return R
+
+
+def return_sites(b):
+    """[(loc, stmt-or-None)] where the function result is produced: assignments (and call
+    destinations, stmt None) to a return carrier whose value is not just another carrier."""
+    R = return_carriers(b)
+    out = []
+    for loc, st in b.iter_stmts():
+        if st["k"] != "assign" or st["place"]["proj"] or st["place"]["local"] not in R:
+            continue
+        rv = st["rv"]
+        if rv["k"] == "use" and rv["op"]["k"] in ("copy", "move") and not rv["op"]["place"]["proj"] and rv["op"]["place"]["local"] in R:
+            continue
+        out.append((loc, st))
+    for bb, t in b.iter_calls():
+        if not t["dest"]["proj"] and t["dest"]["local"] in R:
+            out.append((b.term_loc(bb), None))
+    return out
+
+
+def _own_clock_call(b, e):
+    """e is `out_of_time(start, t)` on the function's own clock parameters."""
+    if e[0] != "call" or e[1] != OOT or len(e[2]) != 2:
+        return False
     start = params_by_type(b, "std::time::Instant")
     tms = params_by_type(b, "u128")
-    for s in b.normal:
-        if s not in b.reachable or b.term(s)["k"] != "switch":
+    a = e[2]
+    return a[0][0] == "arg" and a[0][1] in start and a[1][0] == "arg" and a[1][1] in tms
+
+
+def ot_edges(b, ex, own_only=True):
+    """CFG edges that decide an evaluation of out_of_time(start, t): the switch may test the call
+    itself, its negation, or a named / `&&`-composed boolean built from it (wa/implied.py).
+    Yields (switch_bb, target, truth, call_bb, fresh_blocks, lastdefs, own)."""
+    for s, tg, (e, truth), fresh, lastdefs in implying_edges(b, ex, lambda e, t: e[0] == "call" and e[1] == OOT):
+        own = _own_clock_call(b, e)
+        if own_only and not own:
             continue
-        d = ex.switch_discr(s)
-        if d[0] != "call" or d[1] != OOT:
-            continue
-        a = d[2]
-        own = len(a) == 2 and a[0][0] == "arg" and a[0][1] in start and a[1][0] == "arg" and a[1][1] in tms
-        t = b.term(s)
-        ft = [tg for v, tg in t["cases"] if v == 0]
-        yield s, (ft[0] if ft else None), t["otherwise"], d[3][0], own
+        yield s, tg, truth, e[3][0], fresh, lastdefs, own
+
+
+def ot_guards(b, ex):
+    """Switches on out_of_time(start, t) (directly or through a boolean built from it), grouped per
+    switch block.  Yields (switch_bb, false_target, true_target, call_bb, own)."""
+    per = {}
+    for s, tg, truth, cb, fresh, lastdefs, own in ot_edges(b, ex, own_only=False):
+        r = per.setdefault((s, cb), {"own": own})
+        r[truth] = tg
+    for (s, cb), r in sorted(per.items()):
+        yield s, r.get(False), r.get(True), cb, r["own"]
 
 
 def abs_calls(b):
@@ -54,14 +166,25 @@ def abs_calls(b):
 
 
 def _accept_guard(b, ex):
-    """Guard edges (s, false_target) whose out_of_time call is dominated by an ABS call block."""
-    absb = abs_calls(b)
+    """Not-expired edges of a clock read: [(edge, call_bb, fresh_blocks, lastdefs)] for own-clock reads."""
     out = []
-    for s, ft, tt, cb, own in ot_guards(b, ex):
-        if ft is None or not own:
+    for s, tg, truth, cb, fresh, lastdefs, own in ot_edges(b, ex):
+        if truth is False:
+            out.append(((s, tg), cb, fresh, lastdefs))
+    return out
+
+
+def _guards_after(b, guards, a):
+    """The guard edges that certify a clock read made *after* the sub-search call in block a: every
+    path from a to the switch passes a block that (re)computes the tested value, and every path from
+    a to the definition the edge implies passes the clock read."""
+    out = set()
+    for (s, tg), cb, fresh, lastdefs in guards:
+        if b.reaches(a, s, removed_nodes=fresh):
+            continue        # a stale value can reach the test
+        if any(dl[0] != cb and b.reaches(a, dl[0], removed_nodes={cb}) for l, dl in lastdefs):
             continue
-        if any(b.node_dominates(a, cb) and a != cb for a in absb):
-            out.append((s, ft))
+        out.add((s, tg))
     return out
 
 
@@ -70,14 +193,18 @@ def _fallback_ok(b, ex, bb):
     why = []
     # under out_of_time == true
     under_ot = False
-    for s, ft, tt, cb, own in ot_guards(b, ex):
-        if own and tt is not None and tt != ft and b.edge_dominates((s, tt), bb):
+    for s, tg, truth, cb, fresh, lastdefs, own in ot_edges(b, ex):
+        if truth is True and (b.edge_dominates((s, tg), bb) or (tg == bb and len(b.pred.get(bb, [])) == 1)):
             under_ot = True
     if not under_ot:
         why.append("not under `out_of_time(start, t) == true`")
-    bf = bool_facts(b, ex, bb)
     none_ok = any(d[0] == "call" and d[1].endswith("::is_none") and v is True and
-                  b.local_ty(root_local(d[2][0]) or 0) == "std::option::Option<board::BoardState>" for d, v in bf.items())
+                  b.local_ty(root_local(d[2][0]) or 0) == "std::option::Option<board::BoardState>" for d, v in known_atoms(b, ex, bb))
+    if not none_ok:
+        # `if let None = best_move` / `match best_move { None => .. }`
+        for d, vals, excl, s_, tg in dominating_facts(b, ex, bb):
+            if d[0] == "discr" and b.local_ty(root_local(d[1]) or 0) == "std::option::Option<board::BoardState>" and (vals == [0] or (vals is None and excl == [1])):
+                none_ok = True
     if not none_ok:
         why.append("not under `best_move.is_none()`")
     args = ex.call_args(bb)
@@ -114,6 +241,7 @@ def r7_1(ctx):
     if not absb:
         raise AnchorMissing("no call of alpha_beta_search in get_best_move")
     guards = _accept_guard(b, ex)
+    after_guards = {a: _guards_after(b, guards, a) for a in absb}
     abs_exprs = set()
     for a in absb:
         abs_exprs.add(ex.call_expr(b.term(a), b.term_loc(a)))
@@ -146,10 +274,15 @@ def r7_1(ctx):
     for loc, kind, label in sites:
         n[kind] = n.get(kind, 0) + 1
         key = "get_best_move:%s#%d" % (kind, n[kind])
-        dom = [g for g in guards if b.edge_dominates(g, loc[0]) or g[1] == loc[0]]
-        if dom:
-            ctx.ob(key, True, b.where(loc), "`%s` is dominated by the not-expired edge of out_of_time re-read after the sub-search (guard at %s)" % (
-                label, b.where(b.term_loc(dom[0][0]))))
+        # every path from a sub-search call to the site passes the not-expired edge of a clock read made
+        # after that call (reachability with the certified guard edges removed)
+        x = loc[0]
+        after = [a for a in absb if a == x or b.reaches(a, x)]
+        guarded = bool(after) and all(after_guards[a] and not b.reaches(a, x, removed_edges=after_guards[a]) for a in after)
+        if guarded:
+            g0 = sorted(after_guards[after[0]])[0]
+            ctx.ob(key, True, b.where(loc), "`%s`: every path from the sub-search passes the not-expired edge of out_of_time re-read after it (guard at %s)" % (
+                label, b.where(b.term_loc(g0[0]))))
             continue
         if kind == "send":
             ok, why = _fallback_ok(b, ex, loc[0])
@@ -159,7 +292,28 @@ def r7_1(ctx):
         ctx.ob(key, False, b.where(loc),
                "`%s` can execute with a value from a sub-search that the clock aborted: it is not dominated by the not-expired edge of an out_of_time(start, t) re-read after alpha_beta_search" % label)
     ctx.floor("accept sites", len(sites), 7)
-    ctx.floor("accept guards", len(guards), 1)
+    ctx.floor("accept guards", len(set().union(*after_guards.values())) if after_guards else 0, 1)
+
+
+_FLIP = {"Gt": "Lt", "Ge": "Le", "Lt": "Gt", "Le": "Ge"}
+_NEG = {"Gt": "Le", "Ge": "Lt", "Lt": "Ge", "Le": "Gt"}
+
+
+def _cmp_norm(e):
+    """An order comparison as (op, lhs, rhs) with op in {Gt, Ge}: `a >= b`, `b <= a`, `!(a < b)` are
+    the same predicate."""
+    neg = False
+    while e[0] == "un" and e[1] == "Not":
+        e = e[2]
+        neg = not neg
+    if e[0] != "bin" or e[1] not in _FLIP:
+        return None
+    op, a, c = e[1], e[2], e[3]
+    if neg:
+        op = _NEG[op]
+    if op in ("Lt", "Le"):
+        op, a, c = _FLIP[op], c, a
+    return op, a, c
 
 
 def r7_2(ctx):
@@ -174,7 +328,7 @@ def r7_2(ctx):
         ex = Exprs(b)
         entry_guard = None
         for s, ft, tt, cb, own in ot_guards(b, ex):
-            if own and cb == 0:
+            if own and cb == 0 and tt is not None and entry_guard is None:
                 entry_guard = (s, tt)
         if fn == ABS:
             ctx.ob("alpha_beta_search:entry-clock-test", entry_guard is not None, b.where((0, 0)),
@@ -191,8 +345,8 @@ def r7_2(ctx):
                         if not ok:
                             ctx.ob("alpha_beta_search:%s-before-clock-test" % c.split("::")[-1], False, b.where(b.term_loc(bb)),
                                    "this call can run before the clock was consulted")
-        for loc, st in b.iter_stmts():
-            if st["k"] == "assign" and st["place"]["local"] == 0 and not st["place"]["proj"]:
+        for loc, st in return_sites(b):
+            if st is not None:
                 e = ex.rvalue(st["rv"], loc)
                 if e == ("const", neg_inf) or e == ("const", pos_inf):
                     n += 1
@@ -225,8 +379,14 @@ def r7_2(ctx):
     # and its verdict is `elapsed >= allowance` of exactly its two parameters (monotone in the clock)
     oex = Exprs(ob)
     rets = [oex.rvalue(st["rv"], loc) for loc, st in ob.iter_stmts() if st["k"] == "assign" and st["place"]["local"] == 0]
-    okc = len(rets) == 1 and rets[0][0] == "bin" and rets[0][1] in ("Ge", "Gt") and rets[0][3] == ("arg", params_by_type(ob, "u128")[0]) and \
-        any(x[0] == "call" and x[1].endswith("duration_since") and ("arg", params_by_type(ob, "std::time::Instant")[0]) in x[2] for x in subexprs(rets[0][2]))
+    okc = False
+    if len(rets) == 1:
+        c = _cmp_norm(rets[0])
+        tp, sp = params_by_type(ob, "u128"), params_by_type(ob, "std::time::Instant")
+        if c is not None and c[0] in ("Ge", "Gt") and tp and sp and strip_refs(c[2]) == ("arg", tp[0]):
+            start = ("arg", sp[0])
+            okc = any(x[0] == "call" and ((x[1].endswith("duration_since") and start in [strip_refs(y) for y in x[2][1:]]) or
+                                          (x[1].endswith("Instant::elapsed") and strip_refs(x[2][0]) == start)) for x in subexprs(c[1]))
     ctx.ob("out_of_time:elapsed>=allowance", okc, ob.where((0, 0)), "returns `%s`" % (show_expr(rets[0], ob)[:90] if rets else "?"))
     ctx.floor("sentinel sites", n, 3)
 
@@ -286,13 +446,7 @@ def r10_5(ctx):
         ok = sts == {"out"}
         if not ok:
             # name the assignments to the return place that reach here in state `in`
-            offenders = []
-            for loc, st in b.iter_stmts():
-                if st["k"] == "assign" and st["place"]["local"] == 0 and not st["place"]["proj"] and "in" in before.get(loc, ()):
-                    offenders.append(loc)
-            for bb2, t2 in b.iter_calls():
-                if t2["dest"]["local"] == 0 and "in" in before.get(b.term_loc(bb2), ()):
-                    offenders.append(b.term_loc(bb2))
+            offenders = [loc for loc, st in return_sites(b) if "in" in before.get(loc, ())]
             for loc in offenders or [b.term_loc(rb)]:
                 ctx.ob("alpha_beta_search:return-with-node-still-counted:%s" % b.text_at(loc).split("=")[-1].strip()[:30].replace(" ", ""),
                        False, b.where(loc), "this return leaves the position counted in the repetition table (no remove on this exit): the record is not left as it was given")
@@ -305,12 +459,28 @@ def r10_5(ctx):
         seen.add((loc, why))
         ctx.ob("alpha_beta_search:%s" % why.split(" ")[0] + ":" + why.replace(" ", "-")[:40], False, b.where(loc), why)
     ctx.floor("add sites", counts["add"], 1)
-    ctx.floor("remove sites", counts["remove"], 3)
+    ctx.floor("remove sites", counts["remove"], 1)
     ctx.floor("repetition tests", counts["test"], 1)
     for fn in (QUIESCE, GBM):
         fb = f.body(fn)
         ev = [callee_of(t) for _, t in fb.iter_calls() if callee_of(t) in (ADD, REMOVE, "draw_table::DrawTable::clear")]
         ctx.ob("%s:no-table-events" % fn.split("::")[-1], not ev, fb.where((0, 0)), "table events: %s" % ev)
+
+
+def _value_origins(b, ex, e, seen):
+    """[(def loc or None, expr)]: the non-trivial definitions a value comes from, looking through
+    locals of the same type that merely carry it (moves between locals)."""
+    if e[0] == "var":
+        out = []
+        for dloc, kind in sorted(e[2]):
+            if kind != "whole" or (e[1], dloc) in seen:
+                continue
+            seen.add((e[1], dloc))
+            de = ex._def_expr(e[1], dloc)
+            for dl, x in _value_origins(b, ex, de, seen):
+                out.append((dl if dl is not None else dloc, x))
+        return out
+    return [(None, e)]
 
 
 def r3_2(ctx):
@@ -348,13 +518,17 @@ def r3_2(ctx):
     ctx.floor("sends", nsend, 2)
     for v in sorted(vecs):
         nd = 0
-        for loc, kind in b.reaching().all_sites(v):
+        origins = []
+        for loc, kind in sorted(b.reaching().all_sites(v)):
             if kind != "whole":
                 continue
-            nd += 1
             bb, i = loc
             st = b.stmts(bb)
             e = ex.rvalue(st[i]["rv"], loc) if i < len(st) else ex.call_expr(b.term(bb), loc)
+            # a list moved in from another local (`let l = gen(..); ..; moves = l`) is defined where that one is
+            origins += [(dl if dl is not None else loc, de) for dl, de in _value_origins(b, ex, e, set())]
+        for loc, e in origins:
+            nd += 1
             ok = e[0] == "call" and e[1] == GEN and strip_refs(e[2][0]) == ("arg", bp) and \
                 e[2][1] == ("agg", "move_generation::MoveGenerationMode", "AllMoves", ())
             ctx.ob("get_best_move:%s:def#%d" % (b.lname(v), nd), ok, b.where(loc),
@@ -369,6 +543,8 @@ def _moves_empty_region(b, ex):
             continue
         d = ex.switch_discr(s)
         if d[0] == "call" and d[1].endswith("Vec::<T, A>::is_empty"):
+            return s, b.term(s)["otherwise"]
+        if d[0] == "bin" and d[1] == "Eq" and d[3] == ("const", 0) and strip_refs(d[2])[0] == "call" and strip_refs(d[2])[1].endswith("Vec::<T, A>::len"):
             return s, b.term(s)["otherwise"]
     return None
 
@@ -388,15 +564,12 @@ def r11_1(ctx):
     ply = one_param(b, "i32") if len(params_by_type(b, "i32")) == 1 else None
     i32s = params_by_type(b, "i32")
     found = {"check": [], "nocheck": []}
-    for loc, st in b.iter_stmts():
-        if not (st["k"] == "assign" and st["place"]["local"] == 0 and not st["place"]["proj"]):
+    for loc, st in return_sites(b):
+        if not (b.edge_dominates((s, tt), loc[0]) or (tt == loc[0] and len(b.pred.get(tt, [])) == 1)):
             continue
-        if not b.edge_dominates((s, tt), loc[0]):
-            continue
-        e = ex.rvalue(st["rv"], loc)
-        bf = bool_facts(b, ex, loc[0])
+        e = ex.rvalue(st["rv"], loc) if st is not None else ex.call_expr(b.term(loc[0]), loc)
         chk = None
-        for d, v in bf.items():
+        for d, v in known_atoms(b, ex, loc[0]):
             if d[0] == "call" and d[1] == IS_CHECK:
                 own = strip_refs(d[2][0]) == ("arg", bp) and strip_refs(d[2][1]) == ("field", ("deref", ("arg", bp)), "to_move")
                 if own:
@@ -414,7 +587,7 @@ def r11_1(ctx):
         ok = False
         if le is not None and le[1] == -mate and len(le[0]) == 1:
             (term, coeff), = le[0].items()
-            ok = coeff == 1 and term[0] == "arg" and term[1] in i32s
+            ok = coeff == 1 and term[0] in ("arg", "var") and _canon(b, term[1]) in i32s
         ctx.ob("alpha_beta_search:terminal:mate-score", ok, b.where(loc),
                "no legal move and in check returns `%s`; must be ply_from_root - MATE_SCORE (%d), so that nearer mates score worse for the mated side" % (show_expr(e, b), mate))
     ctx.floor("stalemate returns", len(found["nocheck"]), 1)
@@ -471,7 +644,7 @@ def r12_1(ctx):
             dest = t["dest"]
             loc = b.term_loc(bb)
             if same_node:
-                ok = dest["local"] == 0 and not dest["proj"]
+                ok = dest["local"] in return_carriers(b) and not dest["proj"]
                 ctx.ob(key + ":same-node-unnegated", ok, b.where(loc),
                        "search of the same position (leaf handed to quiescence) must be returned as is")
                 continue
@@ -496,7 +669,7 @@ def r12_1(ctx):
             ctx.ob(key + ":negated-once", ok, b.where(loc),
                    "the child's score is from the opponent's point of view: it must flow into exactly one negation before any use (negations: %d, other uses: %s)" % (
                        len(negs), [b.where(u) for u in others]))
-    ctx.floor("recursive search calls", ncalls, 7)
+    ctx.floor("recursive search calls", ncalls, 3)
 
 
 def r12_5(ctx):
@@ -517,22 +690,22 @@ def r12_5(ctx):
         if not (board_arg[0] == "var" and b.local_ty(board_arg[1]) == "board::BoardState"):
             continue
         n += 1
-        facts_ = dominating_facts(b, ex, bb)
         ok_allow = ok_depth = ok_check = False
         dmin = None
-        for d, vals, excl, s, tg in facts_:
-            truth = True if ((vals is None and excl == [0]) or vals == [1]) else (False if vals == [0] else None)
-            if truth is None:
-                continue
-            if d[0] in ("arg", "var") and d[1] in boolp and truth:
+        for d, truth in known_atoms(b, ex, bb):
+            if d[0] in ("arg", "var") and _canon(b, d[1]) in boolp and truth:
                 ok_allow = True
-            if d[0] == "bin" and d[1] in ("Ge", "Gt") and truth and d[3][0] == "const" and root_local(d[2]) in depthp:
-                k = d[3][1] + (1 if d[1] == "Gt" else 0)
-                dmin = k
-                ok_depth = k >= 3
             if d[0] == "call" and d[1] == IS_CHECK and truth is False:
                 own = strip_refs(d[2][0]) == ("arg", bp) and strip_refs(d[2][1]) == ("field", ("deref", ("arg", bp)), "to_move")
                 ok_check = ok_check or own
+        for op, x, y in order_facts(b, ex, bb):
+            x, y = strip_refs(x), strip_refs(y)
+            while x[0] == "cast":
+                x = x[2]
+            if y[0] == "const" and x[0] in ("arg", "var") and _canon(b, x[1]) in depthp:
+                k = y[1] + (1 if op == "Gt" else 0)
+                dmin = k if dmin is None else max(dmin, k)
+        ok_depth = dmin is not None and dmin >= 3
         loc = b.term_loc(bb)
         ctx.ob("alpha_beta_search:null-move:only-when-allowed", ok_allow, b.where(loc), "null move is tried only when the caller allows it (no two null moves in a row)")
         ctx.ob("alpha_beta_search:null-move:depth>=3", ok_depth, b.where(loc),
@@ -581,10 +754,9 @@ def r12_4(ctx):
                        "" if not skip else ": NOT so — some moves are skipped (`continue`), so the value is no longer the minimax value over the engine's own move generation"))
             if fn == ABS:
                 # iterator must be moves.iter().skip(1) and moves[0] searched before the loop
-                sl = data_slice(ex, strip_refs(src[2][0]))
-                skips = [y for y in sl if y[0] == "call" and y[1].endswith("::skip")]
-                ok = len(skips) == 1 and skips[0][2][1] == ("const", 1)
-                ctx.ob("alpha_beta_search:rest-loop-starts-at-second-move", ok, b.where(b.term_loc(h)), "the loop over the remaining moves is `.skip(1)`: %s" % [show_expr(y[2][1], b) for y in skips])
+                off = loopform.iter_start_offset(ex, src[2][0])
+                ctx.ob("alpha_beta_search:rest-loop-starts-at-second-move", off == 1, b.where(b.term_loc(h)),
+                       "the loop over the remaining moves starts at index 1 (`.skip(1)` / `[1..]`): first index visited = %s" % off)
                 first = []
                 for bb in rec - body_:
                     a = ex.call_args(bb)
@@ -597,16 +769,19 @@ def r12_4(ctx):
     ctx.floor("searching loops over move lists", n, 3)
 
 
-def _lin_locals(e):
-    """linear form with terms keyed by the local they are rooted in (versions ignored)."""
+def _lin_locals(e, b=None):
+    """linear form with terms keyed by the local they are rooted in (versions ignored; with `b`,
+    a local that continues a parameter is keyed by the parameter)."""
     le = linear(e)
     if le is None:
         return None
     out = {}
     for t, c in le[0].items():
         t0 = strip_refs(t)
-        key = ("local", t0[1]) if t0[0] in ("var", "arg") else t0
+        key = ("local", _canon(b, t0[1]) if b is not None else t0[1]) if t0[0] in ("var", "arg") else t0
         out[key] = out.get(key, 0) + c
+        if out[key] == 0:
+            del out[key]
     return (out, le[1])
 
 
@@ -647,7 +822,7 @@ def r12_2(ctx):
             args = ex.call_args(bb)
             board_arg = strip_refs(args[one_param(cb, "&board::BoardState") - 1])
             same_node = board_arg[0] == "arg" and board_arg[1] in bps
-            la, lb = _lin_locals(args[apos]), _lin_locals(args[bpos])
+            la, lb = _lin_locals(args[apos], b), _lin_locals(args[bpos], b)
             key = "%s:call#%d(%s):window" % (fn.split("::")[-1], k, c.split("::")[-1])
             loc = b.term_loc(bb)
             if la is None or lb is None:
@@ -683,25 +858,38 @@ def r12_2(ctx):
             ctx.ob(key, kind is not None, b.where(loc),
                    "child searched with (%s, %s) = (-hi, -lo) for (lo, hi) = %s" % (show_expr(args[apos], b), show_expr(args[bpos], b),
                                                                                   kind or "NONE of (alpha,beta), (alpha,alpha+1), (beta-1,beta): the child's window is not the negated window of this node"))
-    ctx.floor("recursive search calls", n, 7)
+    ctx.floor("recursive search calls", n, 3)
+
+
+def order_facts(b, ex, bb):
+    """Order comparisons known true on entry to bb, each as (op, lhs, rhs) with op in {Gt, Ge}
+    (`a < b` is `b > a`, a false `a < b` is `a >= b`; named and `&&`-composed conditions included)."""
+    out = []
+    for e, truth in known_atoms(b, ex, bb):
+        c = _cmp_norm(e if truth else ("un", "Not", e))
+        if c is not None:
+            out.append(c)
+    return out
 
 
 def _cmp_facts(b, ex, bb):
-    """[(op, lhs_local_or_expr, rhs_local_or_expr)] of comparisons known true on entry to bb."""
-    out = []
-    for d, vals, excl, s, tg in dominating_facts(b, ex, bb):
-        truth = True if ((vals is None and excl == [0]) or vals == [1]) else (False if vals == [0] else None)
-        if truth is None or d[0] != "bin" or d[1] not in ("Gt", "Ge", "Lt", "Le"):
-            continue
-        op = d[1] if truth else {"Gt": "Le", "Ge": "Lt", "Lt": "Ge", "Le": "Gt"}[d[1]]
-        a, c = strip_refs(d[2]), strip_refs(d[3])
-        ka = ("local", a[1]) if a[0] in ("var", "arg") else a
-        kc = ("local", c[1]) if c[0] in ("var", "arg") else c
-        if op in ("Lt", "Le"):
-            op = {"Lt": "Gt", "Le": "Ge"}[op]
-            ka, kc = kc, ka
-        out.append((op, ka, kc))
-    return out
+    """[(op, lhs, rhs)] (op in Gt/Ge) of comparisons known true on entry to bb; operands that are
+    plain locals are keyed ("local", l) with parameter continuations resolved."""
+    def key(x):
+        x = strip_refs(x)
+        return ("local", _canon(b, x[1])) if x[0] in ("var", "arg") else x
+    return [(op, key(a), key(c)) for op, a, c in order_facts(b, ex, bb)]
+
+
+def _is_max_raise(b, e, l):
+    """e is `max(l, y)` / `max(y, l)` for the local l (by parameter continuation): returns y's key."""
+    if e[0] != "call" or e[1] != "std::cmp::max" or len(e[2]) != 2:
+        return None
+    a, c = strip_refs(e[2][0]), strip_refs(e[2][1])
+    for x, y in ((a, c), (c, a)):
+        if x[0] in ("var", "arg") and _canon(b, x[1]) == _canon(b, l):
+            return y
+    return None
 
 
 def r12_3(ctx):
@@ -734,39 +922,34 @@ def r12_3(ctx):
         # comes after every move was searched
         exit_edges = []
         for body_ in search_loops:
-            for x in body_:
-                if b.term(x)["k"] == "switch":
-                    d = ex.switch_discr(x)
-                    if d[0] == "discr" and d[1][0] == "call" and d[1][1].endswith("::next"):
-                        for v, tg in b.term(x)["cases"]:
-                            if v == 0 and tg not in body_:
-                                exit_edges.append((x, tg))
+            for x, call, some, none in loopform.next_switches(b, ex, body_):
+                if none is not None and none not in body_:
+                    exit_edges.append((x, none))
 
         def after_all_moves(bb):
             return bool(exit_edges) and all(b.edge_dominates(e, bb) or e[1] == bb for e in exit_edges)
         # static evaluation / stand-pat in quiesce counts as a "score" source too
         n = 0
         final = None
-        for loc, st in b.iter_stmts():
-            if not (st["k"] == "assign" and st["place"]["local"] == 0 and not st["place"]["proj"]):
-                continue
+        for loc, st in return_sites(b):
             after = [c for c in child if b.node_dominates(c, loc[0])]
-            e = strip_refs(ex.rvalue(st["rv"], loc))
+            e = strip_refs(ex.rvalue(st["rv"], loc)) if st is not None else ex.call_expr(b.term(loc[0]), loc)
             in_loop = not after_all_moves(loc[0])
             facts_ = _cmp_facts(b, ex, loc[0])
+            el = _canon(b, e[1]) if e[0] in ("var", "arg") else None
             if fn == QUIESCE:
                 scores = [x for x in facts_ if x[0] == "Ge" and x[2] == B]
-                if e[0] in ("var", "arg") and e[1] == alpha and not in_loop and not scores:
+                if el == alpha and not in_loop and not scores:
                     final = loc
                     continue
                 n += 1
-                ok = bool(scores) and e[0] in ("var", "arg") and (e[1] == beta or ("local", e[1]) in [s[1] for s in scores])
+                ok = bool(scores) and el is not None and (el == beta or ("local", el) in [s[1] for s in scores])
                 ctx.ob("%s:cut-off-return#%d" % (short, n), ok, b.where(loc),
                        "returns `%s` early: needs a value >= beta on this path (facts: %s)" % (show_expr(e, b), [(o, _n(b, x), _n(b, y)) for o, x, y in facts_]))
                 continue
             if not after:
                 continue     # returns before any child search: classified by R12.5 / R11.1 / R7.2
-            ek = ("local", e[1]) if e[0] in ("var", "arg") else e
+            ek = ("local", el) if el is not None else e
             cut = any(o == "Ge" and y == B and (x == ek or ek == B) for o, x, y in facts_)
             if cut:
                 n += 1
@@ -779,36 +962,46 @@ def r12_3(ctx):
                            show_expr(e, b), [(o, _n(b, x), _n(b, y)) for o, x, y in facts_]))
             else:
                 final = loc
-                fe = e
         if fn == ABS:
-            okf = final is not None and fe[0] == "var" and b.lname(fe[1]) != b.lname(alpha)
             # the value returned after the loop is the running best score: the local raised under score > best
             ctx.ob("%s:final-return" % short, final is not None, b.where(final) if final else b.file, "after all moves the running best score is returned")
         else:
             ctx.ob("%s:final-return" % short, final is not None, b.where(final) if final else b.file, "after all captures alpha is returned")
-        ctx.floor("%s cut-off returns" % short, n, 2)
-        # raises: X = Y with a guard Gt(Y, X)
+        ctx.floor("%s cut-off returns" % short, n, 1)
+        # raises: `X = Y` with a guard Gt(Y, X), or `X = max(X, Y)` (which is that guarded assignment)
         nr = 0
+        writes = []
         for loc, st in b.iter_stmts():
-            if st["k"] != "assign" or st["place"]["proj"]:
-                continue
-            l = st["place"]["local"]
+            if st["k"] == "assign" and not st["place"]["proj"]:
+                writes.append((loc, st["place"]["local"], strip_refs(ex.rvalue(st["rv"], loc))))
+        for bb, t in b.iter_calls():
+            if not t["dest"]["proj"]:
+                writes.append((b.term_loc(bb), t["dest"]["local"], ex.call_expr(t, b.term_loc(bb))))
+        for loc, l, e in sorted(writes):
             if l not in b.names or b.local_ty(l) != "i32":
                 continue
-            e = strip_refs(ex.rvalue(st["rv"], loc))
-            if e[0] not in ("var", "arg") or e[1] == l:
+            if fn == ABS and not any(b.node_dominates(c, loc[0]) and c != loc[0] for c in child):
                 continue
-            src = ("local", e[1])
-            if not any(b.node_dominates(c, loc[0]) for c in child) and fn == ABS:
+            y = _is_max_raise(b, e, l)
+            if y is not None:
+                nr += 1
+                ctx.ob("%s:raise:%s=max(%s,%s)#%d" % (short, b.lname(l), b.lname(l), _n(b, ("local", y[1]) if y[0] in ("var", "arg") else y), nr), True, b.where(loc),
+                       "`%s = max(%s, ..)` raises %s exactly when the other value is strictly greater" % (b.lname(l), b.lname(l), b.lname(l)))
                 continue
-            if e[1] not in b.names and e[0] == "var":
-                pass
+            if e[0] == "call" and e[1] == "std::cmp::min" and any(strip_refs(x)[0] in ("var", "arg") and _canon(b, strip_refs(x)[1]) == _canon(b, l) for x in e[2]):
+                nr += 1
+                ctx.ob("%s:raise:%s=min(..)#%d" % (short, b.lname(l), nr), False, b.where(loc),
+                       "`%s = min(%s, ..)` lowers a bound that may only be raised by a strictly better score" % (b.lname(l), b.lname(l)))
+                continue
+            if e[0] not in ("var", "arg") or e[1] == l or _canon(b, e[1]) == _canon(b, l):
+                continue
+            src = ("local", _canon(b, e[1]))
             nr += 1
             facts_ = _cmp_facts(b, ex, loc[0])
-            ok = any(o == "Gt" and x == src and y == ("local", l) for o, x, y in facts_)
+            ok = any(o == "Gt" and x == src and y == ("local", _canon(b, l)) for o, x, y in facts_)
             ctx.ob("%s:raise:%s=%s#%d" % (short, b.lname(l), b.lname(e[1]), nr), ok, b.where(loc),
                    "`%s = %s` must be guarded by `%s > %s` (strict)" % (b.lname(l), b.lname(e[1]), b.lname(e[1]), b.lname(l)))
-        ctx.floor("%s raises" % short, nr, 2)
+        ctx.floor("%s raises" % short, nr, 1)
         if fn == ABS:
             # re-search: the second search of the same move is guarded by alpha < score < beta and uses the full window
             byarg = {}
@@ -821,8 +1014,6 @@ def r12_3(ctx):
                 if not b.node_dominates(first, second):
                     first, second = second, first
                 facts_ = _cmp_facts(b, ex, second)
-                sc = None
-                dest = b.term(first)["dest"]["local"]
                 gt = [x for o, x, y in facts_ if o == "Gt" and y == A]
                 lt = [y for o, x, y in facts_ if o == "Gt" and x == B]
                 ok = bool(gt) and bool(lt) and set(gt) & set(lt)
@@ -848,28 +1039,30 @@ def r11_2(ctx):
     ex = Exprs(b)
     i32p = params_by_type(b, "i32")
     ply, alpha, beta = i32p
-    found = {}
-    for bb, t in b.iter_calls():
+    # the clamps are the max/min calls that involve a mate-range constant; other uses of max/min
+    # (e.g. `alpha = max(alpha, score)`) are not clamps
+    found = {"max": [], "min": []}
+    for bb, t in sorted(b.iter_calls()):
         c = callee_of(t) or ""
         if c in ("std::cmp::max", "std::cmp::min"):
             a = ex.call_args(bb)
-            la, lb = _lin_locals(a[0]), _lin_locals(a[1])
-            found[c.split("::")[-1]] = (la, lb, b.term_loc(bb), t["dest"]["local"])
-    mx = found.get("max")
-    ok = False
-    if mx:
-        forms = [mx[0], mx[1]]
-        ok = ({("local", alpha): 1}, 0) in forms and ({("local", ply): 1}, -mate) in forms
-    ctx.ob("alpha_beta_search:mate-distance:alpha", ok, b.where(mx[2]) if mx else b.file, "alpha = max(alpha, ply - MATE_SCORE): the worst that can happen to this node is being mated right here")
-    mn = found.get("min")
-    ok = False
-    if mn:
-        forms = [mn[0], mn[1]]
-        ok = ({("local", beta): 1}, 0) in forms and ({("local", ply): -1}, mate) in forms
-    ctx.ob("alpha_beta_search:mate-distance:beta", ok, b.where(mn[2]) if mn else b.file, "beta = min(beta, MATE_SCORE - ply)")
+            la, lb = _lin_locals(a[0], b), _lin_locals(a[1], b)
+            if any(fm is not None and abs(fm[1]) >= mate - 1000 for fm in (la, lb)):
+                found[c.split("::")[-1]].append((la, lb, b.term_loc(bb)))
+    want = {"max": [({("local", alpha): 1}, 0), ({("local", ply): 1}, -mate)],
+            "min": [({("local", beta): 1}, 0), ({("local", ply): -1}, mate)]}
+    text = {"max": "alpha = max(alpha, ply - MATE_SCORE): the worst that can happen to this node is being mated right here",
+            "min": "beta = min(beta, MATE_SCORE - ply)"}
+    for kind, key in (("max", "alpha"), ("min", "beta")):
+        calls = found[kind]
+        ok = bool(calls) and all(want[kind][0] in (la, lb) and want[kind][1] in (la, lb) for la, lb, _ in calls)
+        ctx.ob("alpha_beta_search:mate-distance:%s" % key, ok, b.where(calls[0][2]) if calls else b.file, text[kind])
 
 
-NONDET = ("std::time::Instant::now", "std::time::SystemTime::now", "rand::thread_rng", "std::env::", "std::thread::current",
+CLOCK_READS = ("std::time::Instant::now", "std::time::Instant::elapsed")      # reads of the monotonic clock
+# point operations on one map entry: no dependence on iteration order or hasher state
+HASH_POINT_OPS = ("std::collections::hash_map::Entry::", "std::collections::hash_map::OccupiedEntry::", "std::collections::hash_map::VacantEntry::")
+NONDET = ("std::time::Instant::now", "std::time::Instant::elapsed", "std::time::SystemTime::now", "std::time::SystemTime::elapsed", "rand::thread_rng", "std::env::", "std::thread::current",
           "std::collections::HashMap::<K, V, S, A>::iter", "std::collections::HashMap::<K, V, S, A>::keys", "std::collections::HashMap::<K, V, S, A>::values",
           "std::collections::HashMap::<K, V, S, A>::drain", "std::collections::hash_map", "std::process::id", "getrandom", "rand::random",
           "rand_chacha::rand_core::SeedableRng::from_entropy", "SeedableRng::from_os_rng", "from_entropy")
@@ -886,9 +1079,11 @@ def r7_5(ctx):
     n = 0
     for fn in cone:
         for c in sorted(cg.ext[fn]):
+            if any(c.startswith(p) for p in HASH_POINT_OPS):
+                continue
             if any(c.startswith(p) or p in c for p in NONDET):
                 n += 1
-                ok = c == "std::time::Instant::now" and fn in (OOT, SEND_INFO)
+                ok = c in CLOCK_READS and fn in (OOT, SEND_INFO)
                 ctx.ob("cone(get_best_move):%s:%s" % (fn.split("::")[-1], c.split("::")[-1]), ok, f.body(fn).file,
                        "`%s` in %s: the search may consult nothing nondeterministic but the clock (in out_of_time, and for the `time` field of info lines)" % (c, fn))
     # the seed of the hasher is a constant
@@ -906,48 +1101,96 @@ def r7_5(ctx):
     for s in b.normal:
         if s in b.reachable and b.term(s)["k"] == "switch":
             d = ex.switch_discr(s)
-            if any(x[0] == "call" and x[1] == "std::time::Instant::now" for x in data_slice(ex, d)):
+            if any(x[0] == "call" and x[1] in CLOCK_READS for x in data_slice(ex, d)):
                 bad.append(b.where(b.term_loc(s)))
     ctx.ob("send_search_info:clock-not-decision-relevant", not bad, bad[0] if bad else b.file, "the clock read of the info line feeds only the printed `time` field")
     ctx.floor("clock reads in the search cone", n, 2)
 
 
+TABLE_LIMIT_MIN_PLY = 20     # far beyond the mate window (15) and the depths (1..3) the properties speak about
+
+
 def r11_5(ctx):
     """Horizon: a node at remaining depth 0 is handed to quiescence only when
     is_check(board, board.to_move) is false (the same test that decides mate at a move-less node);
-    otherwise it is extended."""
+    otherwise it is extended.  A hand-over whose only guard is a lower bound `ply >= K` (K a constant
+    >= 20) on the ply-from-root parameter is the table-limit leaf (the per-ply tables are full) and is
+    not a horizon decision; its complement `ply < K` is not a condition of the horizon hand-over."""
     f = ctx.facts
     b = f.body(ABS)
     ctx.note_fn(ABS)
     ex = Exprs(b, keep=_named_i32(b))
     bp = one_param(b, "&board::BoardState")
     depthp = params_by_type(b, "u8")
+    plyp = params_by_type(b, "i32")[:1]
     handovers = []
     for bb, t in b.iter_calls(callee=QUIESCE):
         a = strip_refs(ex.call_args(bb)[one_param(f.body(QUIESCE), "&board::BoardState") - 1])
         if a == ("arg", bp):
             handovers.append(bb)
-    ctx.floor("leaf hand-overs to quiescence", len(handovers), 1)
-    for bb in handovers:
-        facts_ = dominating_facts(b, ex, bb)
+
+    def local_of(x):
+        x = strip_refs(x)
+        while x[0] == "cast":
+            x = strip_refs(x[2])
+        return _canon(b, x[1]) if x[0] in ("arg", "var") else None
+
+    def const_of(x):
+        x = strip_refs(x)
+        return x[1] if x[0] == "const" and isinstance(x[1], int) and not isinstance(x[1], bool) else None
+    horizon = 0
+    for bb in sorted(handovers):
         at_zero = False
         not_check = False
         others = []
-        for d, vals, excl, s, tg in facts_:
-            truth = True if ((vals is None and excl == [0]) or vals == [1]) else (False if vals == [0] else None)
+        ply_lo = None
+        for d, truth in sorted(known_atoms(b, ex, bb), key=repr):
             d0 = strip_refs(d)
-            if d0[0] == "bin" and d0[1] == "Eq" and root_local(d0[2]) in depthp and d0[3] == ("const", 0) and truth:
-                at_zero = True
-            elif d0[0] == "call" and d0[1] == IS_CHECK and truth is False:
-                own = strip_refs(d0[2][0]) == ("arg", bp) and strip_refs(d0[2][1]) == ("field", ("deref", ("arg", bp)), "to_move")
-                not_check = not_check or own
-            elif d0[0] == "call" and d0[1] in (OOT, IS3):
+            if d0[0] == "bin" and d0[1] in ("Eq", "Ne") and local_of(d0[2]) in depthp and d0[3] == ("const", 0):
+                if truth == (d0[1] == "Eq"):
+                    at_zero = True
+                else:
+                    others.append(show_expr(d0, b)[:60])
                 continue
+            if d0[0] == "call" and d0[1] == IS_CHECK:
+                own = strip_refs(d0[2][0]) == ("arg", bp) and strip_refs(d0[2][1]) == ("field", ("deref", ("arg", bp)), "to_move")
+                if truth is False and own:
+                    not_check = True
+                else:
+                    others.append(show_expr(d0, b)[:60])
+                continue
+            if d0[0] == "call" and d0[1] in (OOT, IS3):
+                continue
+            c = _cmp_norm(d0 if truth else ("un", "Not", d0))
+            if c is not None:
+                op, x, y = c
+                if local_of(x) in plyp and const_of(y) is not None:          # ply >= K / ply > K
+                    k = const_of(y) + (1 if op == "Gt" else 0)
+                    ply_lo = k if ply_lo is None else max(ply_lo, k)
+                    continue
+                if local_of(y) in plyp and const_of(x) is not None:          # K >= ply / K > ply
+                    k = const_of(x) + (1 if op == "Ge" else 0)                # ply < k
+                    if k >= TABLE_LIMIT_MIN_PLY:
+                        continue        # not yet at the table limit: holds wherever the properties look
+            others.append(("" if truth else "!") + show_expr(d0, b)[:60])
+        for d, vals, excl, s_, tg in dominating_facts(b, ex, bb):
+            if b.term(s_).get("discr_ty") == "bool":
+                continue
+            if local_of(d) in depthp and vals == [0]:
+                at_zero = True          # `match depth { 0 => .. }`
             else:
-                others.append(show_expr(d0, b)[:60])
+                others.append(show_expr(strip_refs(d), b)[:60])
+        if ply_lo is not None and ply_lo >= TABLE_LIMIT_MIN_PLY and not at_zero and not not_check and not others:
+            ctx.ob("alpha_beta_search:table-limit-leaf", True, b.where(b.term_loc(bb)),
+                   "hand-over to quiescence guarded solely by ply_from_root >= %d: the per-ply tables are full, not a horizon decision" % ply_lo)
+            continue
+        if ply_lo is not None:
+            others.append("ply_from_root >= %d" % ply_lo)
+        horizon += 1
         ctx.ob("alpha_beta_search:horizon:quiescence-only-when-not-in-check", at_zero and not_check, b.where(b.term_loc(bb)),
                "the leaf is handed to quiescence under depth == 0 (%s) and !is_check(board, board.to_move) (%s); other conditions: %s" % (at_zero, not_check, others))
         ctx.ob("alpha_beta_search:horizon:no-other-condition", not others, b.where(b.term_loc(bb)), "conditions besides depth and check: %s" % others)
+    ctx.floor("leaf hand-overs to quiescence", horizon, 1)
 
 
 def r11_4(ctx):
@@ -956,7 +1199,10 @@ def r11_4(ctx):
     f = ctx.facts
     b = f.body(GBM)
     ctx.note_fn(GBM)
-    ex = Exprs(b, keep={l for l in b.names if b.local_ty(l) == "std::vec::Vec<board::BoardState>"})
+    VEC = "std::vec::Vec<board::BoardState>"
+    keep = {l for l in b.names if b.local_ty(l) == VEC}
+    # branches decided by constants (an inlined helper called with `None`) are not part of the function
+    b, ex, _dead = specialise(b, {}, keep=keep)
     pos_inf = f.const_value("engine::POS_INF")
     loops = b.loops()
     if not loops:
@@ -976,12 +1222,9 @@ def r11_4(ctx):
         # which list: the vector the written element comes from
         base = ex.place({"local": p["local"], "proj": p["proj"][:-1], "ty": ""}, loc)
         ptr = ex.local(p["local"], loc)
-        vec = None
-        for y in data_slice(ex, base) | data_slice(ex, ptr):
-            if y[0] == "call" and y[1].endswith("::into_iter"):
-                r = root_local(y[2][0])
-                if r is not None and b.local_ty(r) == "std::vec::Vec<board::BoardState>":
-                    vec = r
+        # (the element pointer comes from `for m in &mut v`, `v.iter_mut().find(..)`, `v[i]`, ...)
+        roots = loopform.receiver_roots(b, ex, base, VEC) | loopform.receiver_roots(b, ex, ptr, VEC)
+        vec = next(iter(roots)) if len(roots) == 1 else None
         if vec is None:
             ctx.ob("get_best_move:pv-flag#%d:list" % n, False, b.where(loc), "cannot tell which list the flagged move belongs to", reason="shape-not-recognised")
             continue
@@ -1007,18 +1250,11 @@ def r7_6(ctx):
         raise ShapeNotRecognised("get_best_move: no loops")
     outer = max(loops, key=lambda h: len(loops[h]))
     ot_true = set()
-    for s, ft, tt, cb, own in ot_guards(b, ex):
-        if own and tt is not None and tt != ft:
-            ot_true.add((s, tt))
-    # exit edges of the depth loop: from the header's own condition
-    depth_exit = set()
-    for x in loops[outer]:
-        if b.term(x)["k"] == "switch" and not any(x in b2 and b2 < loops[outer] for b2 in loops.values()):
-            d = ex.switch_discr(x)
-            if d[0] == "bin" and d[1] in ("Lt", "Le", "Gt", "Ge") and any(y[0] == "const" for y in (d[2], d[3])):
-                for tg in b.succ.get(x, []):
-                    if tg not in loops[outer]:
-                        depth_exit.add((x, tg))
+    for s, tg, truth, cb, fresh, lastdefs, own in ot_edges(b, ex):
+        if truth is True:
+            ot_true.add((s, tg))
+    # exit edges of the depth loop: its own iteration is exhausted (`while d < N` false, `for d in a..N` done)
+    depth_exit = loopform.exhaustion_exits(b, ex, loops, outer)
     rets = b.return_blocks()
     reach = b.reach_from(0, (), ot_true | depth_exit)
     bad = [r for r in rets if r in reach]
@@ -1086,7 +1322,7 @@ def r12_6(ctx):
                     ctx.ob("%s:%s:list-mutated-by:%s" % (fn.split("::")[-1], b.lname(v), c.split("::")[-1]), False, b.where(b.term_loc(bb)),
                            "`%s` is applied to the generated move list `%s`: the list may be reordered and annotated but not filtered, truncated or extended, otherwise the search is not over the engine's own move generation" % (c, b.lname(v)))
     ctx.ob("move-lists-only-reordered", True, "", "%d uses of generated move lists examined" % n, nontrivial=False)
-    ctx.floor("uses of move lists", n, 6)
+    ctx.floor("uses of move lists", n, 3)
 
 
 def _arith_consts(e):
@@ -1145,4 +1381,4 @@ def r11_6(ctx):
             ctx.ob("%s:mate-constant#%d" % (fn.split("::")[-1], k), ok, b.where(loc),
                    "`%s`: %s" % (show_expr(e, b)[:70], "MATE_SCORE combined with the ply-from-root parameter" if ok else
                                  "a mate-range score without a distance enters the search: the root reports it as `score mate 0` and it compares equal for every mating line"))
-    ctx.floor("mate-range constants in the search", n, 2)
+    ctx.floor("mate-range constants in the search", n, 1)
